@@ -18,6 +18,7 @@
 
 #include <stdio.h>
 #include <stdlib.h>
+#include <math.h>
 
 #include "numeric.h"
 #include "algebra.h"
@@ -121,9 +122,23 @@ void SolveLSE(matrix *mx, dvector *solution)
 
   /* (*X).row is the number of X, so is equal to the number of unknowns variables */
   for(k = 0; k < X->row; k++){
+    /* partial pivoting: bring the entry of column k with the largest magnitude (rows k..) on the diagonal */
+    l = (long int)k;
+    for(i = k+1; i < X->row; i++){
+      if(fabs(X->data[i][k]) > fabs(X->data[l][k]))
+        l = (long int)i;
+    }
+    if((size_t)l != k){
+      for(j = 0; j < X->col; j++){
+        tmp = X->data[l][j];
+        X->data[l][j] = X->data[k][j];
+        X->data[k][j] = tmp;
+      }
+    }
+
     for(i = k+1; i < X->row; i++){
       if(X->data[i][k] != 0.f){ /* if the value is not 0 */
-        if(FLOAT_EQ(X->data[k][k], 0, 1e-4) == 1){
+        if(X->data[k][k] == 0.f){
           tmp = 0.f;
         }
         else{
@@ -156,7 +171,7 @@ void SolveLSE(matrix *mx, dvector *solution)
         continue;
     }
 
-    if(FLOAT_EQ(X->data[l][l], 0, 1e-4) == 1)
+    if(X->data[l][l] == 0.f)
       solution->data[l] = 0.f;
     else
       solution->data[l] = (X->data[l][X->col-1] -b) / X->data[l][l];
